@@ -39,7 +39,10 @@ std::string Plan::text() const
     for (const Step &s : steps) {
         o << "S " << s.op << " " << s.client;
         for (int i = 0; i < 6; i++) o << " " << s.a[i];
-        o << " " << s.seed << " " << s.drop << " " << s.dropk << "\n";
+        o << " " << s.seed << " " << s.drop << " " << s.dropk << " " << s.uid;
+        for (int i = 0; i < 6; i++) o << " " << s.bind[i];
+        for (int i = 0; i < 4; i++) o << " " << s.fbind[i];
+        o << "\n";
     }
     o << "END\n";
     return o.str();
@@ -100,6 +103,10 @@ bool Plan::parse(const std::string &txt)
             ls >> s.op >> s.client;
             for (int i = 0; i < 6; i++) ls >> s.a[i];
             ls >> s.seed >> s.drop >> s.dropk;
+            if (ls >> s.uid) {
+                for (int i = 0; i < 6; i++) ls >> s.bind[i];
+                for (int i = 0; i < 4; i++) ls >> s.fbind[i];
+            } else s.uid = -1;
             steps.push_back(s);
             continue;
         }
